@@ -426,6 +426,24 @@ func (d *Doc) Number() {
 		}
 	}
 	set("nth-zero-selector", nthZero)
+	// some block has bottom padding / border (the second layout of inFlowLayout can only be
+	// triggered by such a block)
+	dec := false
+	var hd func(n *Node)
+	hd = func(n *Node) {
+		if n.Kind == KBlk {
+			if n.Pb+n.Bbw > 0 {
+				dec = true
+			}
+			for _, k := range n.Kids {
+				hd(k)
+			}
+		}
+	}
+	for _, n := range d.Flow {
+		hd(n)
+	}
+	set("bottom-decoration", dec)
 	// break-before on the first child / break-after on the last child of a block with
 	// several children: the value acts at the boundary of the parent (propagation)
 	edge := false
